@@ -180,6 +180,24 @@ func build(c *Case) (*fox.Router, error) {
 	if c.DefaultAt >= len(c.Globals) {
 		opts = append(opts, fox.DefaultOptions())
 	}
+	// innermost for the no-route handler only, and without a trace of its own: for a request carrying X-Alias-Method/-Pattern it
+	// serves the named route in place of the no-route handler through Route.HandleMiddleware (an alias resolved after a manual
+	// look-up), which runs the route-specific chain only - no global middleware a second time
+	opts = append(opts, fox.WithMiddlewareFor(fox.NoRouteHandler, func(next fox.HandlerFunc) fox.HandlerFunc {
+		return func(c fox.Context) {
+			if p := c.Request().Header.Get("X-Alias-Pattern"); p != "" {
+				if rte := c.Fox().Route(c.Request().Header.Get("X-Alias-Method"), p); rte != nil {
+					if c.Request().Header.Get("X-Alias-Bare") != "" {
+						rte.Handle(c)
+					} else {
+						rte.HandleMiddleware(c)
+					}
+					return
+				}
+			}
+			next(c)
+		}
+	}))
 	handlers := []fox.GlobalOption{
 		fox.WithNoRouteHandler(endpoint("noroute", 404)),
 		fox.WithNoMethodHandler(endpoint("nomethod", 405)),
@@ -287,6 +305,21 @@ func checkCase(c *Case) (err error) {
 		want := append(append(c.globalsFor(fox.RouteHandler), rids...), hid)
 		if err := expectTrace(serve(f, "GET", routePath(i)), want); err != nil {
 			return fmt.Errorf("%sroute %d (%+v) served through ServeHTTP: %w", desc, i, rc, err)
+		}
+		// the same two entry points used from inside the no-route chain, on that chain's own context
+		for _, bare := range []bool{false, true} {
+			areq, atr := request("GET", fmt.Sprintf("/alias-of/%d", i))
+			areq.Header.Set("X-Alias-Method", "GET")
+			areq.Header.Set("X-Alias-Pattern", routePattern(i))
+			wantAlias := append(append(c.globalsFor(fox.NoRouteHandler), rids...), hid)
+			if bare {
+				areq.Header.Set("X-Alias-Bare", "1")
+				wantAlias = append(c.globalsFor(fox.NoRouteHandler), hid)
+			}
+			f.ServeHTTP(httptest.NewRecorder(), areq)
+			if err := expectTrace(*atr, wantAlias); err != nil {
+				return fmt.Errorf("%sroute %d (%+v) run from a no-route middleware through Route.HandleMiddleware (Route.Handle: %v) on the no-route context: %w", desc, i, rc, bare, err)
+			}
 		}
 		// Route.Handle: bare handler; Route.HandleMiddleware: only the route-specific chain
 		req, tr := request("GET", routePath(i))
